@@ -93,15 +93,21 @@ def mk_comp(i, seq):
     return S.BaseComponent("C" + str(i), ID="c" + str(i), state_record_list=[S.BaseComponentState(v) for v in seq])
 
 
-def mk_worker(i, seq):
-    return S.BaseWorker("W" + str(i), ID="w" + str(i), state_record_list=[S.BaseWorkerState(v) for v in seq])
+def _members(seq, own, other, mix):
+    """State objects of a worker/facility log. mix: every third entry is the equal-valued member of the sister enum
+    (BaseWorkerState in a facility log and vice versa), as append_project_log_from_simple_json produces them."""
+    return [(other if (mix and j % 3 == 1) else own)(v) for j, v in enumerate(seq)]
 
 
-def mk_fac(i, seq):
-    return S.BaseFacility("F" + str(i), ID="f" + str(i), state_record_list=[S.BaseFacilityState(v) for v in seq])
+def mk_worker(i, seq, mix=False):
+    return S.BaseWorker("W" + str(i), ID="w" + str(i), state_record_list=_members(seq, S.BaseWorkerState, S.BaseFacilityState, mix))
 
 
-def check_encoder(kind, seq, margin, res):
+def mk_fac(i, seq, mix=False):
+    return S.BaseFacility("F" + str(i), ID="f" + str(i), state_record_list=_members(seq, S.BaseFacilityState, S.BaseWorkerState, mix))
+
+
+def check_encoder(kind, seq, margin, res, mix=False):
     """one encoder against the reference; returns True if ok."""
     if kind in ("task", "comp"):
         obj = mk_task(0, seq) if kind == "task" else mk_comp(0, seq)
@@ -109,7 +115,7 @@ def check_encoder(kind, seq, margin, res):
         exp = (ref_intervals(seq, 1, margin), ref_intervals(seq, 2, margin))
         names = ("ready", "working")
     else:
-        obj = mk_worker(0, seq) if kind == "worker" else mk_fac(0, seq)
+        obj = mk_worker(0, seq, mix) if kind == "worker" else mk_fac(0, seq, mix)
         got = obj.get_time_list_for_gannt_chart(finish_margin=margin)
         exp = (ref_intervals(seq, 0, margin), ref_intervals(seq, 1, margin), ref_intervals(seq, -1, margin))
         names = ("ready", "working", "absence")
@@ -141,6 +147,7 @@ def _case(draw, max_len):
         "times": times,
         "ptime": draw(st.integers(0, 500)),
         "last_off": draw(st.integers(0, 10 ** 7)),
+        "mix": draw(st.integers(0, 3)) == 0,
         "base": draw(st.integers(0, len(BASES) - 1)),
         "tz": draw(st.sampled_from(TZ_HOURS)),
     }
@@ -180,8 +187,8 @@ def check(case):
         check_encoder("task", seq, margin, res)
         check_encoder("comp", seq, margin, res)
     for seq in rseqs:
-        check_encoder("worker", seq, margin, res)
-        check_encoder("fac", seq, margin, res)
+        check_encoder("worker", seq, margin, res, mix=bool(case.get("mix")))
+        check_encoder("fac", seq, margin, res, mix=bool(case.get("mix")))
 
     # 2. chart rows
     tasks = [mk_task(i, s) for i, s in enumerate(tseqs)]
@@ -215,8 +222,9 @@ def check(case):
                 exp += ref_rows(o.name, seq, 1, "READY", margin, init, unit)
         if rows_of(df) != sorted(exp):
             res.fail("C19.rows", "product rows differ (view_ready=%s): %s vs %s" % (view_ready, rows_of(df), sorted(exp)), sig="product")
-    workers = [mk_worker(i, s) for i, s in enumerate(rseqs)]
-    facs = [mk_fac(i, s) for i, s in enumerate(rseqs)]
+    workers = [mk_worker(i, s, bool(case.get("mix"))) for i, s in enumerate(rseqs)]
+    facs = [mk_fac(i, s, bool(case.get("mix"))) for i, s in enumerate(rseqs)]
+    res.cls("mixed_enum_members", bool(case.get("mix")))
     team = S.BaseTeam("TM", ID="tm", worker_list=workers)
     wp = S.BaseWorkplace("WP", ID="wp", facility_list=facs)
     for view_ready, view_absence in itertools.product((False, True), (False, True)):
